@@ -273,12 +273,16 @@ class Parser:
 
         element = Class(**parameters, **subcircuits)
         element.set_label(label)
+        lower_limits = {k: v for k, v in lower_limits.items() if not isnan(v)}
+        upper_limits = {k: v for k, v in upper_limits.items() if not isnan(v)}
+        # Both limits may lie above (or below) the default limits, so the new
+        # lower limits cannot always be applied while the default upper limits
+        # are still in place.
         element.set_lower_limits(
-            **{k: v for k, v in lower_limits.items() if not isnan(v)}
+            **{k: -inf for k in lower_limits if k in upper_limits}
         )
-        element.set_upper_limits(
-            **{k: v for k, v in upper_limits.items() if not isnan(v)}
-        )
+        element.set_upper_limits(**upper_limits)
+        element.set_lower_limits(**lower_limits)
         element.set_fixed(**fixed_parameters)
 
         self.push_stack(element)
